@@ -2,16 +2,23 @@
 import glob, json, os
 import vlib
 
-TARGETS = ["Base/Corr.vo", "C18/Model.vo", "C18/Corr.vo", "C18/TableModel.vo", "C18/TableCorr.vo", "C18/Spec.vo", "C18/SpecTest.vo", "C18/ProofsBase.vo",
+TARGETS = ["Base/Corr.vo", "C18/Model.vo", "C18/Corr.vo", "C18/TableModel.vo", "C18/TableCorr.vo", "C18/ConfigModel.vo", "C18/ConfigCorr.vo", "C18/ProofsTable.vo", "C18/ProofsConfig.vo", "C18/Spec.vo", "C18/SpecTest.vo", "C18/ProofsBase.vo",
            "C18/ProofsScalar.vo", "C18/ProofsSparse.vo", "C18/ProofsDense.vo", "C18/ProofsSparseMat.vo", "C18/ProofsInst.vo", "C18/Props.vo"]
 PROPS = ["C18/Props.v"]
 STEMS = ["cases", "tcases", "ccases"]
 CORPUS = os.path.join(vlib.ROOT, "corpus/C18/corpus.jsonl")
 PROPOSED = os.path.join(vlib.ROOT, "corpus/C18/known_findings_proposed.json")
-PARTIAL = ("Theorems are about the hand-written model coq/C18/Model.v of the JSON writers/readers (scalars, dense and sparse "
-           "vectors and matrices, all views). Number formatting/parsing (strconv shortest round trip) and bytes<->document "
-           "(encoding/json) are trusted hypotheses / outside the model. Table Export/Import and distribution configurations "
-           "are not modelled (not covered by theorems; not exercised).")
+PARTIAL = ("Theorems are about the hand-written models coq/C18/Model.v (JSON writers/readers of scalars, dense and sparse vectors and "
+           "matrices, all views), TableModel.v (table Export/Import incl. isGzip) and ConfigModel.v (ConfigDistribution export/import "
+           "of the 20 registered scalar families, mixtures, transforms, scalar iid). Number formatting/parsing (strconv shortest round "
+           "trip, ParseFloat/ParseInt), bytes<->document (encoding/json), bytes<->lines of fields (bufio, strings.Fields, compress/gzip) "
+           "are trusted hypotheses / outside the model and mirrored by the harness. Table part: the dense-matrix round trip is proved up "
+           "to the stored row-major list (positional reading not stated: _partial); sparse-matrix tables have model, exact tie and "
+           "refutations but no universally quantified round-trip theorem; sparse-vector theorem needs a token round trip for all values "
+           "(not the Int instances). Config part: per-family and closure theorems (leaf, wrapper, mixture) are proved, their assembly by "
+           "induction over the tree is not stated; log/exp/normalisation are abstract (hypotheses flog(fexp x)=x, norm lw = lw), so the "
+           "tie compares categorical/binomial/mixture parameters by count in Coq and with a tolerance in the oracle; vector/matrix "
+           "registries other than 'vector:scalar iid' (HMMs, normal, ...) are not modelled.")
 
 
 def findings():
@@ -105,6 +112,9 @@ def run(ctx):
     ctx.cov["trusted_base"] = vlib.TRUSTED_BASE_COMMON + [
         "Go strconv/encoding-json number formatting and parsing round-trip (hypothesis fmt_parse of the theorems; exercised by every round-trip case, not proved)",
         "encoding/json bytes<->document layer, mirrored in the harness by decoding into the same struct shapes",
+        "table byte layer (bufio.ReadString lines, strings.Fields, compress/gzip) mirrored in the harness tokenizer; strconv.ParseFloat/ParseInt give the token values handed to Coq (rne53 is tied to ParseFloat by TLit cases)",
+        "amd64 float->int conversion semantics (CVTTSD2SQ/CVTTSD2SL) in cvt_int",
+        "math.Log/Exp and LogAdd behind categorical/binomial/mixture parameters (abstract in the model; compared by count in Coq, by tolerance in the oracle)",
         "read-only reflection on the private fields of the containers to observe headers and stored entries",
         "axioms: see 'print_assumptions' (expected: closed under the global context)"]
     ctx.cov["partial"] = PARTIAL
